@@ -78,12 +78,13 @@ PROPS = {
         explanation='Verus; per-token classification contracts.',
     ),
     'C11': dict(
-        units=['lex', 'synx', 'sema'],
+        units=['lex', 'synx', 'sema', 'sym'],
         decided=[
             'every malformedness flag of the lexer (unterminated string/bitstring/block comment, empty int, empty exponent, bad version, invalid identifier) yields a non-empty message',
             'Converter::push records it under the index of that very token; nothing is recorded otherwise',
             'strings, bit strings and block comments: `terminated` is set exactly when the closing quote (not escaped) / the `*/` closing the outermost level of the nested comment exists (spec functions str_end / bc_end), the token then ends right after it, and an unterminated one runs to the end of the input',
             'numeric literals: empty_int / empty_exponent are set exactly when the OpenQASM 3 numeric syntax (num_spec) says so: a base prefix without digits, an exponent marker [sign] without digits',
+            'Context::new (unit SYM): the context an analysis starts from has only the global scope open, no diagnostics (own or included), no statements and no pending annotations — this is the context analyze_source returns when analysis is gated off',
             'analyze_source (unit SEMA): whenever the source or any included file has a syntax diagnostic (SourceTrait::have_syntax_errors, taken as specified) the result carries a fresh context: empty program, no semantic diagnostics, none for included files; otherwise the analysis runs and the flag is false',
             'parse_text_check_lex (unit SYNX): the tree is withheld exactly when the lexed text has a lexical diagnostic, and then exactly the lexical diagnostics are returned (one syntax error per diagnostic); otherwise the tree of the same text is returned',
         ],
